@@ -73,8 +73,10 @@ class NumEdit(Edit):
         Return true for allowed characters.
         """
         if len(ch) == 1:
-            if ch.upper() in self._allowed:
-                return True
+            # only ASCII letters are matched without regard to case ('ı'.upper() is 'I', 'ſ'.upper() is 'S')
+            if ch in self._allowed or (ch.isascii() and ch.upper() in self._allowed):
+                # nothing goes in front of a leading minus sign
+                return not (self.edit_pos == 0 and self.edit_text[:1] == "-")
 
             return self._allow_negative and ch == "-" and self.edit_pos == 0 and "-" not in self.edit_text
         return False
@@ -202,8 +204,8 @@ class IntegerEdit(NumEdit):
             # in case a float is passed or some other error
             if isinstance(default, str) and len(default):
                 # check if it is a valid initial value
-                validation_re = f"^[{allowed_chars}]+$"
-                if not re.match(validation_re, str(default), re.IGNORECASE):
+                validation_re = f"[{allowed_chars}]+"
+                if not re.fullmatch(validation_re, str(default), re.IGNORECASE | re.ASCII):
                     raise ValueError(f"invalid value: {default} for base {base}")
 
             elif isinstance(default, Decimal) and default.as_tuple()[2] != 0:
